@@ -53,11 +53,16 @@ def run(tier, seed):
     if not cases or not sets:
         raise vlib.ToolError("MC_C10 emitted no cases")
     classes = collections.Counter(c["cls"] for c in cases)
-    for need in ("in", "out", "edge", "nul"):
+    for need in ("in", "out", "edge", "nul", "cor", "inf", "unt"):
         if classes[need] == 0:
             raise vlib.ToolError("vacuous: no case of domain class %s" % need)
     if not any(not c["sup"] for c in cases):
         raise vlib.ToolError("vacuous: no unsupported-inverse case")
+    # the derived value classes really carry the values they are named after
+    special = collections.Counter(v for c in cases if c["cls"] in ("inf", "unt") for v in c["pt"] if v in ("inf", "-inf", "-0.0"))
+    for need in ("inf", "-inf", "-0.0"):
+        if special[need] == 0:
+            raise vlib.ToolError("vacuous: no case with %s in an element" % need)
     for x in cases:
         x["t"] = "case"
     for x in sets:
@@ -96,7 +101,9 @@ def run(tier, seed):
     res.extra["step_events_checked"] = summary["step_events"]
     res.rule = ("spec/Catalogue.tla: one row per operator parameterisation (every built-in name; aspects of laea/lcc/merc/utm/helmert/"
                 "molodensky/grid operators with and without @null). TLC enumerates row x direction x domain class (inside / far outside a "
-                "declared limit / at the limit / outside coverage with a null grid) x representative point x all 16 NaN masks and derives the "
+                "declared limit / at the limit / outside coverage with a null grid / corner of the value space: poles, a degree beyond, antipode, "
+                "image of a pole, centre of curvature, largest finite number / +-inf in one element that is read, where a limit is declared / "
+                "+-inf or -0.0 in one element the operator does not work on) x representative point x all 16 NaN masks and derives the "
                 "set of admissible abstract outcomes (counted?, per element same|new|nan|any, carries-NaN, really-changed); per (row, direction) "
                 "all these tuples also go through one call (count between the number that must and the number that may be counted, in both "
                 "orders). Pipelines of 2 (quick) / 3 (thorough) steps over 40+ step variants incl. inv and omit_*: abstract transformers "
@@ -108,6 +115,15 @@ def run(tier, seed):
         "which elements carry the NaN of a failed tuple is not compared (any element)",
         "NaN in an element the operator reads: counted or not is not prescribed; only NaN propagation and (if counted) untouched elements",
         "points at a declared limit (edge) admit both outcomes: fully transformed and counted, or NaN and not counted",
+        "corners of the value space (cor: finite numbers where the formulas degenerate) and +-inf in an element that is read (inf) admit the same "
+        "two outcomes; what is never admitted is a counted tuple with NaN in a written element although nothing it read was NaN",
+        "+-inf in a written element of a counted tuple is NOT judged (only NaN is): the statement names NaN as the mark of failure, and for "
+        "merc/webmerc/somerc at a pole or btmerc a quarter turn off the central meridian an infinite coordinate is the mathematically right "
+        "value (PROJ refuses such points; the documentation of the crate does not say)",
+        "+-inf in an element that is read is asked only of directions with a declared limit (tmerc/utm, lcc, laea inverse, somerc inverse, "
+        "grid operators, geodesic): the statement speaks of NaN inputs, not of infinite ones, and affine operators (helmert, addone, "
+        "unitconvert, adapt, axisswap) legitimately turn them into inf - inf = NaN; likewise the largest finite number is a corner of "
+        "the transverse Mercator rows only (overflow inside an affine operator is not judged)",
         "far-outside points exist only where the operator declares a limit: tmerc/utm strip, laea disc (inverse, all aspects as the statement "
         "names the disc), lcc opposite pole (forward), grid coverage; btmerc/butm, merc, omerc, cart etc. declare none",
         "lcc and somerc inverse signal non-convergence but no representative non-converging point is known: no outside class",
@@ -120,6 +136,16 @@ def run(tier, seed):
     known = {k.get("deviation"): k for k in vlib.known_findings(PROP)}
     seen = collections.Counter()
     index = {_key(x): x for x in recs}
+    # at most ten distinct signatures get a replay file (vlib): take the failures operator by operator, so that the ten
+    # show as many different operators as possible (the k-th failing signature of each before the k+1-th of any)
+    rank, nsig = {}, collections.Counter()
+    for f in fails:
+        name = ((f.get("def") or "").split() or ["?"])[0]
+        sg = (name, _signature(f))
+        if sg not in rank:
+            rank[sg] = nsig[name]
+            nsig[name] += 1
+    fails = sorted(fails, key=lambda f: rank[(((f.get("def") or "").split() or ["?"])[0], _signature(f))])
     for f in fails:
         devs = f.get("deviation") or []
         if devs and all(d in known for d in devs):
@@ -205,7 +231,10 @@ def selftest(seed):
     """The comparison binds: corrupted predictions must be rejected, the genuine ones of the same cases accepted."""
     vlib.build_harness(BIN)
     r = vlib.tlc_must_pass(vlib.tlc("MC_C10", "MC_C10_q", workers=4, timeout=900))
-    good = [dict(c, t="case") for c in r["records"]["CASE"] if c["row"] == "utm_n" and c["dir"] == "F" and not c["mask"]]
+    # (the classes of which the expectation is a single outcome, and the edge: the self test is about the binding, and
+    # must not depend on how the code treats the corners of the value space)
+    good = [dict(c, t="case") for c in r["records"]["CASE"] if c["row"] == "utm_n" and c["dir"] == "F" and not c["mask"]
+            and c["cls"] in ("in", "out", "edge", "unt")]
     if len(good) < 2:
         raise vlib.ToolError("selftest: cases not found")
     summary, fails = _replay(good, "C10-self-good", timeout=300)
